@@ -93,7 +93,8 @@ Fixpoint join_nl (ls : list str) : str :=
 
 (* ------------------------------------------------------------------ R *)
 (* expansion as in MakeRead.expand_go, extended by the two cases channel F needs: the one-character reference
-   to the variable named comma, and a dollar sign at the very end of the text (kept literally by GNU Make) *)
+   to the variable named comma, and a dollar sign at the very end of the text (kept literally by GNU Make); a
+   one-character reference is a one-BYTE reference in GNU Make, so only ASCII characters are in the fragment *)
 Fixpoint cexp (v : vars) (st : xst) (s : str) : option str :=
   match s with
   | [] => match st with XN => Some [] | XD => Some [c_dollar] | XR _ => None end
@@ -103,7 +104,7 @@ Fixpoint cexp (v : vars) (st : xst) (s : str) : option str :=
     | XD =>
       if N.eqb c c_dollar then option_map (cons c_dollar) (cexp v XN r)
       else if N.eqb c c_lp then cexp v (XR []) r
-      else if ref_char c || N.eqb c c_comma then option_map (app (v [c])) (cexp v XN r)
+      else if (ref_char c && (c <? 128)) || N.eqb c c_comma then option_map (app (v [c])) (cexp v XN r)
       else None
     | XR acc =>
       if N.eqb c c_rp then option_map (app (v acc)) (cexp v XN r)
